@@ -171,6 +171,7 @@ func (im *Impl) Exec(line string) (out string) {
 		im.BS = atoi(w[1])
 		nb := atoi(w[2])
 		types.ShouldPunchHoles = false
+		types.MaxChainLength = 0
 		replica.VerifDropHoles()
 		im.S = replica.NewServer("127.0.0.1:9502", im.Dir, 512, "")
 		if err := im.S.Create(int64(nb * Blk)); err != nil {
@@ -352,6 +353,16 @@ func (im *Impl) Exec(line string) (out string) {
 		return im.rbEnd()
 	case "clone":
 		return im.clone(w[1])
+	case "maxchain":
+		types.MaxChainLength = atoi(w[1])
+		return "ok"
+	case "replace":
+		// ReplaceDisk is a step of the legacy deletion flow, only ever sent to an RW replica; the
+		// harness sends it in the other modes, where it must be refused without effect
+		if r := im.rep(); r != nil && r.VerifMode() == "RW" {
+			return "inadmissible"
+		}
+		return res(im.S.ReplaceDisk(snapFile(w[1]), snapFile(w[2])))
 	case "recs":
 		r := im.rep()
 		if r == nil {
